@@ -15,7 +15,7 @@ import (
 // during which one provider call fails cleanly.
 
 var histOpsLife = map[string]bool{"create": true, "sched": true, "delete": true, "finish": true, "deliver": true, "drop": true,
-	"resync": true, "scale": true, "apirelease": true}
+	"resync": true, "scale": true, "apirelease": true, "run": true, "stalesync": true}
 
 func ipamHistSystems(cloud bool) []*HistSys {
 	ops := map[string]bool{}
@@ -30,12 +30,16 @@ func ipamHistSystems(cloud bool) []*HistSys {
 	bound := []Op{{Kind: "create", A: 0}, {Kind: "sched", A: 0}, {Kind: "create", A: 1}, {Kind: "sched", A: 1}}
 	reserved := append(append([]Op{}, bound...), Op{Kind: "delete", A: 0}, Op{Kind: "deliver", A: 0}, Op{Kind: "delete", A: 1}, Op{Kind: "deliver", A: 0})
 	oneEach := append(append([]Op{}, bound...), Op{Kind: "delete", A: 0}, Op{Kind: "deliver", A: 0})
+	// both bound; the first pod reported Running and was deleted, neither notification has been handled yet (late events of an
+	// earlier incarnation are what the next operations have to cope with)
+	staleEvents := append(append([]Op{}, bound...), Op{Kind: "run", A: 0}, Op{Kind: "delete", A: 0})
 	var out []*HistSys
 	for _, c := range classes {
 		out = append(out, &HistSys{Class: c, Cfg: cfgTwoPools(cloud), NPods: 2, Replicas: 2, Ops: ops})
 		out = append(out, &HistSys{Class: c, Cfg: cfgTwoPools(cloud), NPods: 2, Replicas: 2, Ops: ops, PrefixName: "allbound", Prefix: bound})
 		out = append(out, &HistSys{Class: c, Cfg: cfgTwoPools(cloud), NPods: 2, Replicas: 2, Ops: ops, PrefixName: "bothdeleted", Prefix: reserved})
 		out = append(out, &HistSys{Class: c, Cfg: cfgTwoPools(cloud), NPods: 2, Replicas: 2, Ops: ops, PrefixName: "onedeleted", Prefix: oneEach})
+		out = append(out, &HistSys{Class: c, Cfg: cfgTwoPools(cloud), NPods: 2, Replicas: 2, Ops: ops, PrefixName: "lateevents", Prefix: staleEvents})
 	}
 	// two pools that share one pod subnet (disjoint ranges, different node subnets), with restarts in the alphabet: which pool an
 	// allocated IP belongs to is decided again whenever the tables are rebuilt
